@@ -62,11 +62,17 @@ class Tracer:
             self.fired = True
             ev["injected"] = self.plan[1]
             return self.plan[1]
+        if injectable and self.plan and self.fired and self.plan[1] == "e" and kind == "raw":
+            return "e"               # a persistent I/O error (disk full, quota): every later write(2) fails as well;
+            #                          opens (which truncate) and renames still succeed, as they do on a full disk
         return None
 
     def _act(self, mode):
         if mode == "i":
             raise Interrupt()
+        if mode == "e":
+            import errno
+            raise OSError(errno.ENOSPC, "No space left on device (injected)")
         if mode in ("d", "m"):
             os._exit(EXIT_INJECTED)
 
